@@ -11,7 +11,7 @@ RULE = ("systematic scope x collision matrix: a macro whose parameter is named l
         "alias / nothing, used as a plain argument, as an array name or as an index; the SAME statement text placed in that macro, in a second "
         "macro with a different parameter list, and in the main body, in every order of definition and use, with and without let substitution "
         "(overrides on the colliding let) and macro expansion; oracle: the lexical-scoping reference semantics (bounded/ref.py: parameters "
-        "shadow header bindings inside the macro only) and, for valid bracketed programs, the emulator's state; non-trivial = the program has a "
+        "shadow header bindings inside the macro only; arguments are evaluated in the caller's scope - also through nested calls whose callee reuses the name), the used-qubit analysis of each unexpanded call and, for valid bracketed programs, the emulator's state; non-trivial = the program has a "
         "name collision and the statement text occurs in two scopes")
 BOUND = "register q[4], <= 2 macros, <= 3 uses of the shared statement text"
 BUDGET_S = {"quick": 40, "thorough": 300}
@@ -57,6 +57,17 @@ def cases(tier, rng):
     if tier != "thorough":
         rng.shuffle(out)
         out = out[:700]
+    # arguments are written in the CALLER's scope: a callee parameter named like an identifier inside the argument
+    # (an index, an array name) must not capture it - seen by every consumer that reads a call without expanding it
+    for idx in range(4):
+        for regarg in ("q", "a"):
+            p = dict(hdr)
+            p["macros"] = [("cfl", ["j", "x"], ("seq", [("gate", "X", [("id", "x")]), ("gate", "Rx", [("id", "x"), ("id", "j")])])),
+                           ("chi", ["j"], ("seq", [("gate", "cfl", [("num", 0), ("q", "q", "j")])])),
+                           ("con", ["rr"], ("seq", [("gate", "X", [("id", "rr")])])),
+                           ("ctw", ["rr"], ("seq", [("gate", "con", [("q", "rr", 1)])]))]
+            p["body"] = [("gate", "prepare_all", []), ("gate", "chi", [("num", idx)]), ("gate", "ctw", [("id", regarg)]), ("gate", "measure_all", [])]
+            out.insert(0, (p, "nested-arg", "j"))
     for p, use, pname in out:
         text = ref.to_text(p)
         yield text, {"prog": p, "text": text}, pname != "z"
@@ -104,6 +115,24 @@ def check(pl):
             if got != want:
                 return f"after {name} (overrides {ov}) the meaning differs from lexical scoping:\n want {want}\n got  {got}"
         n = 4
+        if not ov:
+            # consumers that read a macro call WITHOUT expanding it (used-qubit analysis) see the same lexical meaning
+            from jaqalpaq.core.algorithm.used_qubit_visitor import get_used_qubit_indices
+            q1 = dict(p)
+            for i, st in enumerate(p["body"]):
+                if st[1] in ("prepare_all", "measure_all"):
+                    continue
+                q1["body"] = [st]
+                try:
+                    w = ref.used_qubits(ref.sem(q1), n)
+                    g1 = get_used_qubit_indices(c.body.statements[i])
+                except ref.RefError:
+                    continue
+                except JaqalError as ex:
+                    return f"used-qubit analysis of statement {i} ({st[1]}) raised {ex}"
+                g1s = set(g1.get("q", set()))
+                if g1s != w or any(v for k, v in g1.items() if k != "q"):
+                    return f"used-qubit analysis of the call {st[1]} gives {dict(g1)}, lexical scoping gives q:{sorted(w)}"
         if emu.gates_valid(want):
             numpy.random.seed(0)
             try:
